@@ -59,6 +59,12 @@ TARGETS = [
     ("ec_new", "cstree/src/syntax/iter.rs", "SyntaxElementChildren", None, "new"),
     ("ec_next", "cstree/src/syntax/iter.rs", "SyntaxElementChildren", "Iterator", "next"),
     ("nc_new", "cstree/src/syntax/iter.rs", "SyntaxNodeChildren", None, "new"),
+    ("nv_first", "cstree/src/syntax/node.rs", "SyntaxNode", None, "first_child_or_token"),
+    ("nv_last", "cstree/src/syntax/node.rs", "SyntaxNode", None, "last_child_or_token"),
+    ("nv_next_after", "cstree/src/syntax/node.rs", "SyntaxNode", None, "next_child_or_token_after"),
+    ("nv_prev_before", "cstree/src/syntax/node.rs", "SyntaxNode", None, "prev_child_or_token_before"),
+    ("nv_next_sibling", "cstree/src/syntax/node.rs", "SyntaxNode", None, "next_sibling_or_token"),
+    ("nv_prev_sibling", "cstree/src/syntax/node.rs", "SyntaxNode", None, "prev_sibling_or_token"),
     ("n_clone", "cstree/src/syntax/node.rs", "SyntaxNode", "Clone", "clone"),
     ("n_drop", "cstree/src/syntax/node.rs", "SyntaxNode", "Drop", "drop"),
     ("n_try_write", "cstree/src/syntax/node.rs", "SyntaxNode", None, "try_write"),
